@@ -5,6 +5,7 @@
     Thrift's binary protocol is additionally modelled value -> writes. *)
 From Coq Require Import ZArith List Bool Lia.
 From FV Require Import Model.SizeLimit Proofs.SizeLimitProofs.
+From FV Require Gen.Consts Proofs.ConstsAgree.
 Import ListNotations.
 Open Scope Z_scope.
 
@@ -158,6 +159,20 @@ Theorem c12_pinned_string_bypass : forall lim n, 0 < lim -> lim < 4 + n ->
   /\ run_ops (new_buf lim) [WS n] = (new_buf lim, false).
 Proof. exact pinned_bypass. Qed.
 Print Assumptions c12_pinned_string_bypass.
+
+(** the limits and exception codes of the model are the constants of lib/go as they are now
+    (Gen/Consts.v is regenerated from the source on every build) *)
+Theorem c12_constants_are_the_sources :
+  SizeLimit.nats_max = Consts.go_natsMaxMessageSize
+  /\ SizeLimit.transport_request_too_large = Consts.go_TRANSPORT_EXCEPTION_REQUEST_TOO_LARGE
+  /\ SizeLimit.transport_response_too_large = Consts.go_TRANSPORT_EXCEPTION_RESPONSE_TOO_LARGE
+  /\ SizeLimit.app_response_too_large_written = Consts.go_APPLICATION_EXCEPTION_RESPONSE_TOO_LARGE
+  /\ SizeLimit.app_response_too_large_mapped = Consts.go_APPLICATION_EXCEPTION_RESPONSE_TOO_LARGE.
+Proof.
+  destruct ConstsAgree.frame_limits_agree as (_ & A).
+  destruct ConstsAgree.exception_codes_agree as (B & C & D & E & _). auto.
+Qed.
+Print Assumptions c12_constants_are_the_sources.
 
 (** non-vacuity: concrete messages on both sides of each limit *)
 Example c12_nonvacuous_request :
